@@ -571,7 +571,7 @@ def check_flow_rows(c, rec):
 CLAUSES = [
     Clause("trim", check_trim, canvases, budget={"quick": 1600, "thorough": 40000},
            floors={"style:block": 0.35, "style:kitty": 0.08, "style:iterm2": 0.08, "flow": 0.15, "box": 0.3,
-                   "small_all": 0.2, "large_sampled": 0.1, "hpad": 0.3, "vpad": 0.2, "multirun": 0.15,
+                   "small_all": 0.2, "large_sampled": 0.1, "hpad": 0.25, "vpad": 0.2, "multirun": 0.12,
                    "nontrivial_canvas": 0.4, "composite": 0.5}),
     Clause("flow_rows", check_flow_rows, lambda: canvases(rows_only=True), budget={"quick": 600, "thorough": 20000},
            floors={"noupscale_original_fits": 0.1, "shrunk": 0.05}),
